@@ -195,6 +195,7 @@ class Engine:
         self.returns = []       # (state, value) of every explored return, for whole-function analyses
         self._addr = 0
         self.obligations = []
+        self._hooks_fired = set()
         self.axioms = list(VV.math_axioms())
         self.dropped = []
         self.models = {}          # dotted name -> python callable(eng, st, args, kwargs, node) -> V
@@ -518,8 +519,29 @@ class Engine:
         if n in ("ValueError", "TypeError", "Exception", "NameError", "IndexError", "KeyError", "OrderedDict"):
             return VConc(n)
         # a name that is not bound on this path
+        if self.cur is not None and getattr(self.cur, "region", None) and n not in self._region_assigned():
+            # a region reads a name that neither the sidecar provides nor the region assigns: the sidecar does not match the code (renamed local,
+            # new dependency); nothing can be said about the region -- not a NameError of the program
+            raise Unsupported("the region reads `%s`, which the sidecar does not provide (line %s)" % (n, getattr(node, "lineno", "?")))
         self.oblige(st, "name '%s' is bound" % n, z3.BoolVal(False), "safety", node)
         raise PathEnd()
+
+    def _region_assigned(self):
+        r = getattr(self, "_region_assigned_cache", None)
+        if r is None or r[0] is not self.cur:
+            names = set()
+            for s_ in (self._region_body or []):
+                for m in ast.walk(s_):
+                    if isinstance(m, ast.Name) and isinstance(m.ctx, ast.Store):
+                        names.add(m.id)
+                    elif isinstance(m, ast.ExceptHandler) and m.name:
+                        names.add(m.name)
+                    elif isinstance(m, (ast.FunctionDef, ast.ClassDef)):
+                        names.add(m.name)
+                    elif isinstance(m, (ast.Import, ast.ImportFrom)):
+                        names |= {(a.asname or a.name).split(".")[0] for a in m.names}
+            self._region_assigned_cache = r = (self.cur, names)
+        return r[1]
 
     def ev_Attribute(self, node, st):
         base = self.ev(node.value, st)
@@ -1359,6 +1381,7 @@ class Engine:
         if self.cur is not None and getattr(self.cur, "stmt_hooks", None):
             for pred_, hk_ in self.cur.stmt_hooks:
                 if pred_(node):
+                    self._hooks_fired.add(id(hk_))
                     hk_(Spec(self, st), st, node)
         try:
             return m(node, st, K)
@@ -1395,6 +1418,7 @@ class Engine:
         return K["next"](st)
 
     def run_hook(self, hook, st, node):
+        self._hooks_fired.add(id(hook))
         if hook.__code__.co_argcount >= 3:
             hook(Spec(self, st), st, node)
         else:
@@ -2064,7 +2088,19 @@ class Engine:
             K["cont"] = lambda s: on_ret(s, VConc("continue"))
             K["brk"] = lambda s: on_ret(s, VConc("break"))
         stmts = body if body is not None else fnode.body
+        self._region_body = stmts if contract.region else None
+        self._region_assigned_cache = None
+        self._hooks_fired = set()
         self.ex_block(stmts, st, K)
+        # every anchor of the sidecar must have been reached: a ghost hook that never ran (its variable was renamed, its statement is gone) means
+        # the lemmas it was to establish are missing -- the function is outside what this contract can decide (the caller downgrades), not wrong
+        optional = set(getattr(contract, "optional_hooks", ()))
+        for key_, hk_ in list(contract.hooks.items()):
+            if id(hk_) not in self._hooks_fired and key_ not in optional:
+                raise Unsupported("the sidecar's ghost hook on %r never ran: the code no longer has the anchor it is attached to" % key_)
+        for pred_, hk_ in (getattr(contract, "stmt_hooks", None) or []):
+            if id(hk_) not in self._hooks_fired and not getattr(hk_, "optional", False):
+                raise Unsupported("a statement hook of the sidecar (%s) never ran: the code no longer has the statement it is attached to" % getattr(hk_, "__name__", "?"))
         obs = self.obligations[n0:]
         if self.paths - p0 == 0 and not obs:
             raise Unsupported("no path of %s was explored" % qual)
